@@ -10,7 +10,7 @@ from props.C06 import describe, rules
 
 REQUIRED_THEOREMS = ['Usid.C19.sidpy_coords', 'Usid.C19.image_pixels', 'Usid.C19.array_rejected_before_file',
                      'Usid.C19.array_valid_iff', 'Usid.C19.array_layout', 'Usid.C19.unfixed_reshape_counterexample']
-RULE = ('[also: indexed-colour and bilevel images] [also: labelled datasets one of whose axes was re-assigned by attribute (internal axis dictionary out of order)] [also: images as comma-separated text, colour png, tif, bmp; resampling filters NEAREST / BILINEAR / BOX; the recorded binning, filter, image_min / image_max observed] [also: an extra dataset holding an integer that single precision cannot represent, element kinds of the stored extras observed] [also: dimension / axis values that are not increasing, lazy inputs in several chunks, dtype= / compression= keyword arguments, verbose=True] three families. ARRAY: generator datasets through ArrayTranslator as numpy or dask arrays, dimension lists given '
+RULE = ('[also: supplied parameters named like the library\'s book-keeping attributes (timestamp, machine_id)] [also: indexed-colour and bilevel images] [also: labelled datasets one of whose axes was re-assigned by attribute (internal axis dictionary out of order)] [also: images as comma-separated text, colour png, tif, bmp; resampling filters NEAREST / BILINEAR / BOX; the recorded binning, filter, image_min / image_max observed] [also: an extra dataset holding an integer that single precision cannot represent, element kinds of the stored extras observed] [also: dimension / axis values that are not increasing, lazy inputs in several chunks, dtype= / compression= keyword arguments, verbose=True] three families. ARRAY: generator datasets through ArrayTranslator as numpy or dask arrays, dimension lists given '
         'fastest first (or a bare Dimension), with/without parameter dictionaries and extra datasets (lists, arrays, '
         'dask arrays), a pre-existing file at the output path or none, and one (sometimes two) invalidities out of: '
         'non-string argument, data that is not an array / not 2D, dimension lists of the wrong type or whose sizes do not '
@@ -44,7 +44,9 @@ def _gen_array(rng, i):
     if any(b.startswith('extra') for b in bad) and extras is None:
         extras = 'arrays'
     return {'kind': 'array', 'ds': ds, 'input': rng.choice(['numpy', 'numpy', 'dask']), 'bad': sorted(set(bad)),
-            'parms': rng.choice([None, {}, {'a': 1, 'b': 'text'}, {'gain': 2.5, 'mode': 'fast', 'n': 3}]),
+            'parms': rng.choice([None, {}, {'a': 1, 'b': 'text'}, {'gain': 2.5, 'mode': 'fast', 'n': 3},
+                                 # acquisition metadata that happens to use the names of the library's own book-keeping
+                                 {'timestamp': '2019-03-01 10:00', 'machine_id': 'AFM-2', 'gain': 2.5}]),
             'extras': extras, 'preexisting': rng.random() < 0.4,
             'bare_dim': rng.random() < 0.3,
             # lazy input in several chunks; h5py keyword arguments handed through to the main dataset
@@ -164,10 +166,10 @@ def _count_mains(f):
     return sorted(mains)
 
 
-def _attrs(o):
+def _attrs(o, keep=()):
     out = {}
     for k, v in o.attrs.items():
-        if k in BOOK:
+        if k in BOOK and k not in keep:
             continue
         if isinstance(v, bytes):
             v = v.decode()
@@ -285,7 +287,7 @@ def _run_array(inp, work):
             meas = f['Measurement_000']
             chan = meas['Channel_000']
             out['meas_members'] = sorted(meas.keys())
-            out['meas_attrs'] = {k: str(v) for k, v in _attrs(meas).items()}
+            out['meas_attrs'] = {k: str(v) for k, v in _attrs(meas, keep=set(inp['parms'] or {})).items()}
             out['members'] = sorted(chan.keys())
             if 'Raw_Data' in chan:
                 out['file'] = _read_main(f, chan['Raw_Data'])
